@@ -34,7 +34,10 @@ SPEC = {
              "strings / nothing, with and without return annotation; 4 signatures in the F45 region; 3 un-renderable "
              "annotations; 13 orders of virtual / persistent / method entries; 11 target x class-name combinations on two "
              "schemas) plus seeded random schemas (0-8 fields, 0-3 methods with generated signatures, nesting depth <= 2, "
-             "targets schema / configuration / config type); dynamic root and nested schemas whose configurations got extra fields at run time by assignment and "
+             "targets schema / configuration / config type); fields constructed with a default (constant / callable / None) for each of 27 default-capable kinds, "
+             "declared before and after fields without one, before nested schemas, config types, lists, virtual fields, "
+             "methods, and interleaved (~160 matrix cases, 45% of the eligible random fields); validity = ast.parse AND "
+             "compile() of the whole text; dynamic root and nested schemas whose configurations got extra fields at run time by assignment and "
              "load_tree (17 matrix cases, ~25% of the random cases): field tables (names and identities) of the root and "
              "every nested schema, the run-time field tables and trees of the dynamic configuration, and a second "
              "configuration built afterwards are compared before/after; every case generates the stub up to 9 times in one process "
